@@ -14,11 +14,11 @@ ELEMENTWISE = {"sqrt": "sqrt", "exp": "exp", "log": "log", "sin": "sin", "cos": 
                "arccos": "arccos", "arcsin": "arcsin", "arctan": "arctan", "radians": "radians", "deg2rad": "radians",
                "degrees": "degrees", "rad2deg": "degrees", "floor": "floor", "ceil": "ceil", "abs": "abs",
                "absolute": "abs", "fabs": "abs", "square": "square", "acos": "arccos", "asin": "arcsin",
-               "atan": "arctan", "negative": "neg", "logical_not": "not"}
+               "atan": "arctan", "negative": "neg", "logical_not": "not", "trunc": "trunc", "fix": "trunc", "sign": "sign"}
 BINARY = {"arctan2": "arctan2", "atan2": "arctan2", "minimum": "minimum", "maximum": "maximum", "add": "add",
           "subtract": "sub", "multiply": "mul", "divide": "div", "true_divide": "div", "power": "pow", "mod": "mod",
           "logical_and": "and", "logical_or": "or", "floor_divide": "floordiv", "fmod": "mod", "pow": "pow",
-          "greater": "gt", "less": "lt", "greater_equal": "ge", "less_equal": "le", "equal": "eq", "not_equal": "ne"}
+          "copysign": "copysign", "greater": "gt", "less": "lt", "greater_equal": "ge", "less_equal": "le", "equal": "eq", "not_equal": "ne"}
 TRANSPARENT = {"asarray", "array", "ascontiguousarray", "atleast_1d", "squeeze", "asanyarray", "copy", "float32",
                "float64", "single", "double", "real"}
 
@@ -86,6 +86,9 @@ def call_ref(it, name, args, kwargs, node, fr):
         mv = Seq([K(g) for g in mt.groups()], "match")
         mv.match0 = mt.group(0)
         return mv
+    if name == "re.compile" and args and all(is_pyconst(a) for a in args) and not kwargs:
+        import re as _re
+        return K(_re.compile(*[pyval(a) for a in args]))
     if name in ("re.findall", "re.sub", "re.split") and all(is_pyconst(a) for a in args) and not kwargs:
         import re as _re
         return from_py(getattr(_re, name.split(".")[1])(*[pyval(a) for a in args]))
@@ -101,6 +104,31 @@ def deep_copy(v):
 
 def call_numpy(it, name, mod, fn, args, kwargs, node, fr):
     from . import imgdom
+    if mod == "numpy" and fn == "transpose" and args:
+        ax_ = kwargs.get("axes", args[1] if len(args) > 1 else None)
+        if ax_ is not None:
+            try:
+                perm = list(pyval(ax_))
+                return call_method(it, args[0], "transpose", [K(int(a_)) for a_ in perm], {}, node, fr)
+            except (NotConst, TypeError, Unsupported):
+                pass
+    if mod == "numpy" and fn in ("flip", "flipud", "fliplr") and args and getattr(args[0], "rank", None) is not None:
+        # np.flip(x, axis=k) is x[..., ::-1, ...] with the reversed slice on axis k
+        ax_ = K(0) if fn == "flipud" else K(1) if fn == "fliplr" else kwargs.get("axis", args[1] if len(args) > 1 else None)
+        rk_ = args[0].rank
+        if ax_ is not None and is_pyconst(ax_) and isinstance(pyval(ax_), int) and -rk_ <= pyval(ax_) < rk_:
+            k_ = pyval(ax_) % rk_
+            idx_ = Seq([SliceV(None, None, K(-1)) if i_ == k_ else SliceV(None, None, None) for i_ in range(rk_)], "tuple")
+            return it.lib.getitem(it, args[0], idx_, node, fr)
+    if mod == "numpy" and fn == "swapaxes" and len(args) == 3 and getattr(args[0], "rank", None) is not None \
+            and all(is_pyconst(a_) and isinstance(pyval(a_), int) for a_ in args[1:]):
+        rk_ = args[0].rank
+        perm = list(range(rk_))
+        i_, j_ = pyval(args[1]) % rk_, pyval(args[2]) % rk_
+        perm[i_], perm[j_] = perm[j_], perm[i_]
+        return call_method(it, args[0], "transpose", [K(a_) for a_ in perm], {}, node, fr)
+    if mod == "numpy" and fn in ("ascontiguousarray", "asfortranarray", "require") and args:
+        return args[0]  # memory layout only: the same values in the same index order
     if "where" in kwargs and mod == "numpy" and fn in ("power", "divide", "true_divide", "sqrt", "log", "exp", "multiply", "add", "subtract", "reciprocal",
                                                         "float_power", "log10", "square"):
         # ufunc(..., where=m, out=o): computed where m holds, the value of `o` elsewhere (uninitialised without `out`)
@@ -141,6 +169,10 @@ def call_numpy(it, name, mod, fn, args, kwargs, node, fr):
         return imgdom.Filtered(f.src, f.gain, f.axes, f.transformed, real=True)
     if fn in ("array", "asarray", "copy") and args and isinstance(args[0], (imgdom.Filtered, imgdom.Spectrum)):
         return args[0]
+    if fn == "modf" and len(args) == 1 and not kwargs:
+        # (fractional, integral) parts, both with the sign of the argument
+        whole = map1(lambda t: mk("trunc", t), args[0])
+        return Seq([binmap("sub", args[0], whole, it, node), whole], "tuple")
     if fn in ELEMENTWISE and args:
         op = ELEMENTWISE[fn]
         return map1(lambda t: mk(op, t), args[0])
@@ -205,18 +237,34 @@ def call_numpy(it, name, mod, fn, args, kwargs, node, fr):
         d = const(pyval(dec)) if dec is not None and is_pyconst(dec) else const(0)
         return map1(lambda t: mk("round", t, d), args[0])
     if fn == "clip":
-        lo, hi = to_term(argn(args, kwargs, 1, "a_min", K(None))), to_term(argn(args, kwargs, 2, "a_max", K(None)))
+        lo_v, hi_v = argn(args, kwargs, 1, "a_min", K(None)), argn(args, kwargs, 2, "a_max", K(None))
+        xa_ = as_arr(args[0]) if not isinstance(args[0], Val) else None
+        la_ = as_arr(lo_v) if not isinstance(lo_v, Val) else None
+        ha_ = as_arr(hi_v) if not isinstance(hi_v, Val) else None
+        k_ = max([len(z_.cols) for z_ in (xa_, la_, ha_) if z_ is not None] or [0])
+        if k_ and all(z_ is None or len(z_.cols) in (1, k_) for z_ in (xa_, la_, ha_)):
+            # element-wise bounds (np.clip(x, 0, shape)): component k of x is clipped with component k of the bounds
+            pick = lambda z_, v_, i_: (z_.cols[i_] if len(z_.cols) == k_ else z_.cols[0]) if z_ is not None else to_term(v_)
+            cols_ = [T("clip", pick(xa_, args[0], i_), pick(la_, lo_v, i_), pick(ha_, hi_v, i_)) for i_ in range(k_)]
+            ref_ = xa_ or la_ or ha_
+            return Arr(cols_, max(z_.ndim for z_ in (xa_, la_, ha_) if z_ is not None), getattr(ref_, "space", None))
+        lo, hi = to_term(lo_v), to_term(hi_v)
         return map1(lambda t: T("clip", t, lo, hi), args[0])
     if fn == "where":
         if len(args) == 3:
             c, a, b = args
             ct = to_term(c)
             aa, ab = as_arr(a) if not isinstance(a, Val) else None, as_arr(b) if not isinstance(b, Val) else None
-            if aa is not None or ab is not None:
-                n = len((aa or ab).cols)
+            ac = as_arr(c) if not isinstance(c, Val) else None
+            if aa is not None or ab is not None or ac is not None:
+                ref = aa or ab or ac
+                n = len(ref.cols)
+                if any(x_ is not None and len(x_.cols) != n for x_ in (aa, ab, ac)):
+                    raise Unsupported("numpy.where over arrays of different widths", node)
                 ca = aa.cols if aa is not None else [to_term(a)] * n
                 cb = ab.cols if ab is not None else [to_term(b)] * n
-                return Arr([mk("ite", ct, x, y) for x, y in zip(ca, cb)], (aa or ab).ndim, _space(c, a, b))
+                cc = ac.cols if ac is not None else [ct] * n  # a column-structured condition selects column by column
+                return Arr([mk("ite", k_, x, y) for k_, x, y in zip(cc, ca, cb)], ref.ndim, _space(c, a, b))
             r_ = Val(mk("ite", ct, to_term(a), to_term(b)), space=_space(c, a, b))
             ax_ = None
             for x_ in (c, a, b):
@@ -347,6 +395,11 @@ def call_numpy(it, name, mod, fn, args, kwargs, node, fr):
                 and pyval(reps.items[1]) == 1:
             c = Val(v.term)
             c.tiled = (v, reps.items[0])
+            return c
+        if isinstance(v, Val) and isinstance(reps, (Val, Unk)) and not isinstance(reps, Seq) and as_arr(v) is None:
+            # np.tile(<1-D vector>, k): the vector repeated k times (same cyclic content as tiling an (n,1) column k times)
+            c = Val(v.term)
+            c.tiled = (v, reps)
             return c
         if isinstance(v, (Unk,)) and isinstance(reps, Seq) and len(reps.items) == 2 and is_pyconst(reps.items[1]) \
                 and pyval(reps.items[1]) == 1:
@@ -535,7 +588,7 @@ def call_builtin(it, fn, args, kwargs, node, fr):
             return K(len(v.cols))
         if is_pyconst(v):
             return K(len(pyval(v)))
-        r = Val(call("nrows", const(v.space.id if getattr(v, "space", None) else 0)) if getattr(v, "space", None)
+        r = Val(v.space.nrows() if getattr(v, "space", None)
                 else call("len", to_term(v)))
         r.shape_of = v
         r.axis = 0
@@ -989,6 +1042,9 @@ def call_method(it, recv, name, args, kwargs, node, fr):
                 return rs
         if name in ("copy", "to_numpy", "squeeze", "flatten", "ravel", "tolist"):
             return recv
+        if name in ("min", "max", "sum", "mean", "std", "prod", "any", "all") and not getattr(recv, "attr_of", None):
+            # x.min() is np.min(x)
+            return call_numpy(it, "numpy." + name, "numpy", name, [recv] + list(args), kwargs, node, fr)
         if name == "astype":
             u = Unk(call(".astype", recv.term, *[to_term(a) for a in args]), space=recv.space)
             for k_ in ("rank", "pos_of"):
@@ -1061,7 +1117,7 @@ def frame_method(it, f, name, args, kwargs, node, fr):
         asc = kwargs.get("ascending", K(True))
         inplace = _flag(kwargs, "inplace")
         tgt = f if inplace is True else f.clone()
-        tgt.notes.append(("sort_values", to_term(by), to_term(asc)))
+        tgt.notes.append(("sort_values", to_term(by), to_term(asc), to_term(kwargs.get("kind", K("quicksort")))))
         tgt.space = Space("sorted", parent=f.space, how="sort")
         tgt.labels_positional = _flag(kwargs, "ignore_index") is True
         if tgt.labels_positional:
@@ -1267,6 +1323,20 @@ def val_method(it, v, name, args, kwargs, node, fr):
                 return from_py(r)
             except (NotConst, AttributeError, TypeError):
                 return Unk(call("str." + name, to_term(v), *[to_term(a) for a in args]))
+        import re as _re
+        if isinstance(pv, _re.Pattern) and name in ("search", "match", "fullmatch", "findall", "sub", "split") and not kwargs:
+            try:
+                cargs = [pyval(a) for a in args]
+            except NotConst:
+                return Unk(call("re." + name, const(pv.pattern), *[to_term(a) for a in args]))
+            r_ = getattr(pv, name)(*cargs)
+            if name in ("search", "match", "fullmatch"):
+                if r_ is None:
+                    return K(None)
+                mv = Seq([K(g) for g in r_.groups()], "match")
+                mv.match0 = r_.group(0)
+                return mv
+            return from_py(r_)
     keep = ("copy", "astype", "to_numpy", "flatten", "ravel", "squeeze", "reset_index", "tolist", "to_list", "view",
             "reshape", "item", "conj")
     if name == "reshape" and args:
@@ -1471,7 +1541,7 @@ def rot_method(it, r, name, args, kwargs, node):
     if name == "as_rotvec":
         return Unk(call("as_rotvec", r.term), space=r.space)
     if name == "__len__":
-        return Val(call("nrows", const(r.space.id if r.space else 0)))
+        return Val((r.space.nrows() if r.space else call("nrows", const(0))))
     raise Unsupported(f"Rotation.{name}", node)
 
 
